@@ -35,9 +35,10 @@ class IkeSaController:
         return next(x for x in self.ike_sas if x.my_spi == spi)
 
     def _get_ike_sa_by_peer_addr(self, peer_addr, my_addr):
-        # an IKE_SA that has been rekeyed or is being deleted takes no new work: its successor (or a new IKE_SA) does
+        # an IKE_SA that has been rekeyed or is being deleted takes no new work: its successor (or a new IKE_SA) does.
+        # Neither does a half-open responder: whoever sent its IKE_SA_INIT request has proven nothing yet and may never go on
         closing = (IkeSa.State.REKEYED, IkeSa.State.DEL_AFTER_REKEY_IKE_SA_REQ_SENT, IkeSa.State.DEL_IKE_SA_REQ_SENT,
-                   IkeSa.State.DELETED)
+                   IkeSa.State.DELETED, IkeSa.State.INIT_RES_SENT)
         # (connections are keyed by the address pair: an IKE_SA from another local address belongs to another connection)
         return next(x for x in self.ike_sas
                     if x.peer_addr == peer_addr and x.my_addr == my_addr and x.state not in closing)
